@@ -77,6 +77,8 @@ theorem len3_ne2 (p q r : String) (rs : List String) : (Int.ofNat (p :: q :: r :
   simp; omega
 theorem len3_eq2 (p q r : String) (rs : List String) : (Int.ofNat (p :: q :: r :: rs).length == 2) = false := by
   simp; omega
+theorem len3_eq1 (p q r : String) (rs : List String) : (Int.ofNat (p :: q :: r :: rs).length == 1) = false := by
+  simp; omega
 
 /-! ## the loops of `flatten` and `prefix` -/
 
@@ -144,7 +146,7 @@ theorem encStr_nonflags (ms : Go.Opaque → List Val → String × Option Err) (
     rcases ps with _ | ⟨q, _ | ⟨r, rs⟩⟩
     · simp [encResToGo, strAt_zero]
     · simp [encResToGo, strAt_zero]
-    · simp only [len3_ne1, len3_ne2, len3_eq2]; simp [encResToGo, strAt_zero]
+    · simp only [len3_ne1, len3_ne2, len3_eq2, len3_eq1]; simp [encResToGo, strAt_zero]
   by_cases h2 : p = "flags"
   · exact absurd h2 hnf
   by_cases h3 : p = "flatten"
@@ -164,7 +166,7 @@ theorem encStr_nonflags (ms : Go.Opaque → List Val → String × Option Err) (
         · intro x acc
           cases x <;> simp [asList, flattenItem]
     · simp [encResToGo, strAt_zero]
-    · simp only [len3_ne1, len3_ne2, len3_eq2]; simp [encResToGo, strAt_zero]
+    · simp only [len3_ne1, len3_ne2, len3_eq2, len3_eq1]; simp [encResToGo, strAt_zero]
   by_cases h4 : p = "join"
   · subst h4
     unfold process2EncodeString' encodeString
@@ -177,7 +179,7 @@ theorem encStr_nonflags (ms : Go.Opaque → List Val → String × Option Err) (
     · simp only [len2_ne1, len2_ne2, len2_eq2]
       cases hs : toStringListPermissive obj <;>
         simp [encResToGo, strAt_zero, strAt_one, T_toStringListPermissive_eq, hs]
-    · simp only [len3_ne1, len3_ne2, len3_eq2]; simp [encResToGo, strAt_zero]
+    · simp only [len3_ne1, len3_ne2, len3_eq2, len3_eq1]; simp [encResToGo, strAt_zero]
   by_cases h5 : p = "prefix"
   · subst h5
     unfold process2EncodeString' encodeString
@@ -193,7 +195,7 @@ theorem encStr_nonflags (ms : Go.Opaque → List Val → String × Option Err) (
         rw [prefix_loop q strs []]
         · simp [encResToGo, strAt_zero]
         · intro s acc; simp [strAt_one]
-    · simp only [len3_ne1, len3_ne2, len3_eq2]; simp [encResToGo, strAt_zero]
+    · simp only [len3_ne1, len3_ne2, len3_eq2, len3_eq1]; simp [encResToGo, strAt_zero]
   by_cases h6 : p = "sha256"
   · subst h6
     unfold process2EncodeString' encodeString
@@ -202,7 +204,7 @@ theorem encStr_nonflags (ms : Go.Opaque → List Val → String × Option Err) (
     rcases ps with _ | ⟨q, _ | ⟨r, rs⟩⟩
     · simp [encResToGo, strAt_zero]
     · simp [encResToGo, strAt_zero]
-    · simp only [len3_ne1, len3_ne2, len3_eq2]; simp [encResToGo, strAt_zero]
+    · simp only [len3_ne1, len3_ne2, len3_eq2, len3_eq1]; simp [encResToGo, strAt_zero]
   by_cases h7 : p = "tolist"
   · subst h7
     unfold process2EncodeString' encodeString
@@ -219,7 +221,7 @@ theorem encStr_nonflags (ms : Go.Opaque → List Val → String × Option Err) (
         simp [encResToGo, strAt_zero, strAt_one, asList, T_process2ToListMap_eq]
         generalize toListMap _ q = t
         cases t <;> simp
-    · simp only [len3_ne1, len3_ne2, len3_eq2]; simp [encResToGo, strAt_zero]
+    · simp only [len3_ne1, len3_ne2, len3_eq2, len3_eq1]; simp [encResToGo, strAt_zero]
   by_cases h8 : p = "values"
   · subst h8
     unfold process2EncodeString' encodeString
@@ -228,7 +230,7 @@ theorem encStr_nonflags (ms : Go.Opaque → List Val → String × Option Err) (
     rcases ps with _ | ⟨q, _ | ⟨r, rs⟩⟩
     · cases obj <;> simp [encResToGo, strAt_zero, asMap, T_process2ValuesMap_eq]
     · simp [encResToGo, strAt_zero]
-    · simp only [len3_ne1, len3_ne2, len3_eq2]; simp [encResToGo, strAt_zero]
+    · simp only [len3_ne1, len3_ne2, len3_eq2, len3_eq1]; simp [encResToGo, strAt_zero]
   rw [encodeString_other obj p ps h1 h2 h3 h4 h5 h6 h7 h8 spec hp]
   simp only [hp, tolistFix, List.headD_cons, h7, false_and, if_false]
   unfold process2EncodeString'
@@ -240,7 +242,7 @@ theorem encStr_nonflags (ms : Go.Opaque → List Val → String × Option Err) (
       split <;> rfl
     · simp [encResToGo, strAt_zero, h1, h2, h3, h4, h5, h6, h7, h8, hc, hgf]
   · simp [encResToGo, strAt_zero, h1, h2, h3, h4, h5, h6, h7, h8]
-  · simp only [len3_ne1, len3_ne2, len3_eq2]; simp [encResToGo, strAt_zero, h1, h2, h3, h4, h5, h6, h7, h8]
+  · simp only [len3_ne1, len3_ne2, len3_eq2, len3_eq1]; simp [encResToGo, strAt_zero, h1, h2, h3, h4, h5, h6, h7, h8]
 
 /-! ## the fold over a list of specs, continued through codec text -/
 
@@ -415,7 +417,7 @@ theorem T_process2EncodeString_exact (ms : Go.Opaque → List Val → String × 
       simp [strAt_zero, hfl, encodeListWith_flags ms gf obj spec hp]
     · unfold encodeString; rw [hp]; simp [encResToGo, strAt_zero]
     · unfold encodeString; rw [hp]
-      simp only [len3_ne1, len3_ne2, len3_eq2]; simp [encResToGo, strAt_zero]
+      simp only [len3_ne1, len3_ne2, len3_eq2, len3_eq1]; simp [encResToGo, strAt_zero]
   · obtain ⟨k, rfl⟩ : ∃ k, fuel = k + 1 := ⟨fuel - 1, by omega⟩
     exact encStr_nonflags ms gf hGF k obj mf mfd spec depth hnf
 
